@@ -632,8 +632,15 @@ pub fn run(master: u64, runs: u64, sweep: u64, replay_dir: &str, tag: &str) -> J
 
     let mut vio_json = Vec::new();
     for (class, (idx, rec, v)) in m.violations.iter().take(12) {
-        let (min_rec, evals) = minimise(rec, class, 4_000);
-        let final_v = check(&min_rec).violation.unwrap_or_else(|| v.clone());
+        let (mut min_rec, evals) = minimise(rec, class, 4_000);
+        let final_v = match check(&min_rec).violation {
+            Some(fv) => fv,
+            None => {
+                // never pair a violation with a record that does not show it
+                min_rec = rec.clone();
+                v.clone()
+            }
+        };
         let path = format!("{}/C09-{}-{}-{}.json", replay_dir, tag, master, idx);
         let file = Json::obj()
             .with("property", Json::s("C09"))
@@ -727,6 +734,19 @@ pub fn replay(j: &Json) -> i32 {
         co.out.received.len(),
         co.out.expected.len()
     );
+    if let (Some(delivery), Some((ops, expect))) = (&rec.readback, roundtrip_script(&rec.script)) {
+        let out = crate::rsim::exec(&co.out.received, &ops, delivery);
+        println!("read back {} values through the Reader ({} read calls, cuts at {:?}):", expect.len(), out.log.calls, out.log.cuts);
+        for (i, e) in expect.iter().enumerate() {
+            let got = out.results.get(i).map(|s| s.as_str()).unwrap_or("<nothing>");
+            if got != e {
+                println!("  value {}: wrote {} read {}", i, e, got);
+            }
+        }
+        if let Some(m) = &out.panicked {
+            println!("  reader panicked: {}", m);
+        }
+    }
     match co.violation {
         Some(v) => {
             println!("REPLAY-VIOLATION class={} detail={}", v.class(), v.detail);
